@@ -40,6 +40,9 @@ pub fn to_write_options(o: &Opts) -> WriteOptions {
 
 impl Sut for Real {
     fn generate(&self, wgsl: &str, include_path: Option<&str>, opts: &Opts) -> Outcome {
+        // see outread::reset_span_map: the harness's proc-macro2 features make the generator's own
+        // syn::parse_file accumulate sources per thread
+        vcore::outread::reset_span_map();
         let wo = to_write_options(opts);
         let r = catch_unwind(AssertUnwindSafe(|| match include_path {
             Some(p) => wgsl_to_wgpu::create_shader_module(wgsl, p, wo),
